@@ -46,7 +46,7 @@ func ZZ_C04_crash() {
 		}
 		return a
 	}
-	e.seq.script = []zzSeqAnswer{mkAns("a1.", 1), mkAns("a2.", 2), mkAns("a3.", 3), mkAns("a4.", 4)}
+	e.seq.script = []zzSeqAnswer{mkAns("a1.", 1), mkAns("a2.", 2), {ts: zzsym.TimeOf(ts + 3), txs: [][]byte{{7}}}, {ts: zzsym.TimeOf(ts + 4), txs: [][]byte{}}}
 	ctx := context.Background()
 
 	// hashes of blocks that were committed (final save) or published
